@@ -1,4 +1,5 @@
 import Driver.Sess
+import Driver.Catalog
 import Driver.Concurrency
 import Driver.Cqe
 import Driver.Facet
@@ -12,6 +13,7 @@ import Driver.Widcode
 open Driver
 
 def sessions : List (String × Sess) := [
+  ("catalog", CatalogS.sess),
   ("concurrency", ConcurrencyS.sess),
   ("cqe", CqeS.sess),
   ("facet", FacetS.sess),
